@@ -22,6 +22,7 @@ from vlib import Check, ToolError, log, scratch, seed, tlc
 NI, NV, NVAL, NNS, DIM = 3, 4, 2, 2, 8
 LIMIT_A = 2
 KEY_ROW11 = "C10-search-postfilter-leaks-count"
+TRANSPORT_RETRIES = []      # runs repeated because of a transport-level failure (reported in the evidence)
 TPOOL = ["ta", "tb", "tc"]       # the server numbers the enabled tenants in sorted order of their ids
 MC = {"NI": 2, "NV": 2, "NVal": 2, "NT": 2, "NNs": 1, "MaxK": 2, "CapQ": 1, "LimitA": 1}
 GEN = {"NI": NI, "NV": NV, "NVal": NVAL, "NNs": NNS, "MaxK": 3, "CapQ": 4, "LimitA": LIMIT_A, "Gen": "TRUE"}
@@ -407,6 +408,20 @@ class Scenario:
 
     # -- execution -----------------------------------------------------------------------------
     def run_on(self, solo):
+        """A transport-level failure (connection reset under machine load, a slow start) says nothing about the property: the
+        run is repeated on a fresh server, and only a failure that persists is a tool error."""
+        last = None
+        for attempt in range(3):
+            try:
+                return self._run_on_once(solo)
+            except ToolError as e:
+                if "scenario %d (" % self.si not in str(e):
+                    raise
+                last = e
+                TRANSPORT_RETRIES.append(str(e)[:160])
+        raise last
+
+    def _run_on_once(self, solo):
         """-> per step: (answer record or None, {tenant: census})"""
         srv = srvlib.Server(config=self.cfg, api_keys=self.keys, name="c10.%d.%s" % (self.si, "s" if solo else "f"))
         tenants = [1] if solo else list(range(1, self.nt + 1))
@@ -727,7 +742,8 @@ def run(tier):
         "FlushHotTier.documents_flushed counts the documents of ALL tenants (observed); it is treated as a process-wide aggregate "
         "(outside the property) and not compared; timing side channels and /metrics are outside the property",
     ]
-    return ck.finish({"exhaustive": False, "model_check": mc, "scenarios": len(scns), "tenant_views": len(blocks), "events_judged": nev,
+    return ck.finish({"transport_retries": TRANSPORT_RETRIES[:10],
+                      "exhaustive": False, "model_check": mc, "scenarios": len(scns), "tenant_views": len(blocks), "events_judged": nev,
                       "requests_by_kind": hist, "judge": stats, "flush_hot_tier_aggregate": flush_obs, "scenarios_with_rejections": len(bad_scn),
                       "judge_selftest_corrupted_events_caught": n_self, "exec_s": round(exec_s, 1),
                       "constants": {"NI": NI, "NV": NV, "NNs": NNS, "dim": DIM, "limit_observer": LIMIT_A}})
